@@ -185,7 +185,20 @@ def normalise(res, cs=None):
     return _normalise(res, cs)
 
 
+def _loose(v):
+    return ['na'] if v[0] in ('nan', 'none', 'nat') else _canon(v)
+
+
 def _normalise(res, cs=None):
+    if cs is not None and cs['op'] in ('s_map', 'f_map'):
+        # the dtype of a mapped result is inferred from its values: not part of the statement (one missing marker, whole floats as ints)
+        res = dict(res)
+        if res.get('k') == 'series':
+            res['vals'] = [_loose(v) for v in res['vals']]
+            res['dt'] = ['any', 0]
+        elif res.get('k') == 'frame':
+            res['cols'] = [{'dt': ['any', 0], 'vals': [_loose(v) for v in c['vals']]} for c in res['cols']]
+        return res
     '''bloc: the order in which the as-built code emits the (row, column) pairs follows the block layout
     (recorded under C03); the association is what C04 speaks about, so the pairs are put in row-major order.'''
     if cs is not None and cs['op'] == 'f_bloc' and res.get('k') == 'series':
